@@ -379,9 +379,9 @@ def r5_map_paths(ctx):
 
 
 RULES = [
-    Rule('C17.R1', 'rec_path / rec_seg_id equal the documented grammars (DFA equivalence)', r1_languages, floor=5),
-    Rule('C17.R2', 'printer/parser agreement of format_refdes and __repr__ vs __init__', r2_print_parse, floor=8),
-    Rule('C17.R3', 'refusal conditions over all part combinations; foreign segment id refused before index use', r3_refusals, floor=5),
-    Rule('C17.R4', 'Segment.set pads before it stores; Segment.get tests each index', r4_pad_before_store, floor=9),
+    Rule('C17.R1', 'rec_path / rec_seg_id equal the documented grammars (DFA equivalence)', r1_languages, floor=3),
+    Rule('C17.R2', 'printer/parser agreement of format_refdes and __repr__ vs __init__', r2_print_parse, floor=6),
+    Rule('C17.R3', 'refusal conditions over all part combinations; foreign segment id refused before index use', r3_refusals, floor=3),
+    Rule('C17.R4', 'Segment.set pads before it stores; Segment.get tests each index', r4_pad_before_store, floor=6),
     Rule('C17.R5', 'every map node path component parses into its own parts', r5_map_paths, floor=2400),
 ]
